@@ -60,7 +60,36 @@ fn seq_bounds(tier: &str) -> Vec<(usize, usize, usize)> {
     }
 }
 
+/// Properties whose smallest job group per (engine, flavour) is repeated with
+/// keys of a type whose Hash maps every key to the same value (`flavor::HK`).
+const COLLIDE_COPY: [&str; 9] = ["C01", "C02", "C03", "C11", "C12", "C15", "C18", "C19", "C20"];
+
 pub fn plan(prop: &str, tier: &str) -> Option<Plan> {
+    let mut p = plan_inner(prop, tier)?;
+    if COLLIDE_COPY.contains(&prop) {
+        let mut firsts: Vec<(String, String, Value)> = Vec::new();
+        for j in &p.jobs {
+            if !firsts.iter().any(|(e, f, _)| *e == j.engine && *f == j.flavour) {
+                firsts.push((j.engine.clone(), j.flavour.clone(), j.params.clone()));
+            }
+        }
+        let mut extra = Vec::new();
+        for j in &p.jobs {
+            if firsts.iter().any(|(e, f, pa)| *e == j.engine && *f == j.flavour && *pa == j.params) {
+                let mut c = Job { property: j.property.clone(), engine: j.engine.clone(), flavour: j.flavour.clone(), tier: j.tier.clone(), params: j.params.clone(), shard: j.shard, nshards: j.nshards, trace: j.trace };
+                if let Some(o) = c.params.as_object_mut() {
+                    o.insert("collide".into(), json!(1));
+                    extra.push(c);
+                }
+            }
+        }
+        p.jobs.extend(extra);
+        p.rule += " The smallest job group of every flavour is run a second time with keys of a type whose Hash maps every key to the same value (identity must be decided by Eq).";
+    }
+    Some(p)
+}
+
+fn plan_inner(prop: &str, tier: &str) -> Option<Plan> {
     let common_assumptions = vec![
         "small-scope: behaviour of the adjacency code depends only on list shape (self-loop, parallel, position), all of which occur within the bounds".to_string(),
         "the library is the transition function; reference models are oracles only".to_string(),
@@ -120,7 +149,7 @@ pub fn plan(prop: &str, tier: &str) -> Option<Plan> {
                 }
                 // large structured families (thresholds such as inline capacities of 8 / 16 / 32 elements)
                 if matches!(prop, "C04" | "C05" | "C06" | "C07" | "C08" | "C09" | "C10") {
-                    let (nmax, sh) = if tier == "quick" { (20, 8) } else { (40, 16) };
+                    let (nmax, sh) = if tier == "quick" { (if matches!(prop, "C06" | "C07" | "C10") { 17 } else { 20 }, 8) } else { (40, 16) };
                     jobs.extend(sharded(prop, "gsweep", f, tier, json!({"n": 0, "max_l": 0, "large": nmax}), sh));
                 }
                 // larger graphs up to renaming of the nodes (value-independent kinds only: bfs, dfs, orderings)
@@ -134,6 +163,24 @@ pub fn plan(prop: &str, tier: &str) -> Option<Plan> {
                     };
                     for (n, l, sh) in iso {
                         jobs.extend(sharded(prop, "gsweep", f, tier, json!({"n": n, "max_l": l, "val_range": 0, "iso": true}), sh));
+                    }
+                }
+                // the same shapes reached from non-initial states: through histories with removals
+                // (mesh connected and disconnected / isolated first; a temporary edge around every connect)
+                for churn in 1..=3u8 {
+                    let cb: Vec<(usize, usize, usize)> = if tier == "quick" { vec![(3, if prop == "C06" { 2 } else { 3 }, 4)] } else { vec![(3, if prop == "C06" { 3 } else { 4 }, 8), (4, 3, 8)] };
+                    for (n, l, sh) in cb {
+                        let vr = if prop == "C06" { 2 } else { 0 };
+                        jobs.extend(sharded(prop, "gsweep", f, tier, json!({"n": n, "max_l": l, "val_range": vr, "churn": churn}), sh));
+                    }
+                }
+                // the same searches with keys of a type whose Hash is not injective (all keys collide):
+                // identity of nodes must be decided by Eq, never by hash
+                {
+                    let cb: Vec<(usize, usize, usize)> = if tier == "quick" { vec![(3, if prop == "C06" { 2 } else { 3 }, 4)] } else { vec![(3, if prop == "C06" { 3 } else { 4 }, 8), (4, 3, 8)] };
+                    for (n, l, sh) in cb {
+                        let vr = if prop == "C06" { 2 } else { 0 };
+                        jobs.extend(sharded(prop, "gsweep", f, tier, json!({"n": n, "max_l": l, "val_range": vr, "collide": 1}), sh));
                     }
                 }
                 if prop == "C06" {
@@ -152,7 +199,7 @@ pub fn plan(prop: &str, tier: &str) -> Option<Plan> {
             Some(Plan {
                 jobs,
                 level: "exploration".into(),
-                rule: format!("every canonical adjacency shape (all connect-only histories up to the edge bound, deduplicated by observed adjacency lists, edges labelled 1..L) x every root x {}. evaluations = searches executed on the real code; nontrivial = distinct cases with a non-empty filter or a result of >= 2 edges / >= 3 nodes", what),
+                rule: format!("every canonical adjacency shape (all connect-only histories up to the edge bound, deduplicated by observed adjacency lists, edges labelled 1..L) x every root x {}. The smaller bounds are repeated with every shape reached from a non-initial state (a complete mesh connected and then disconnected edge by edge, or torn down with isolate, before the shape is built; a temporary edge on an unused pair connected before and disconnected after every connect): equal observable adjacency must mean equal search behaviour whatever the history; and once more with keys of a type whose Hash maps every key to the same value (the library requires only K: Hash + Eq, so node identity must never be decided by hash). evaluations = searches executed on the real code; nontrivial = distinct cases with a non-empty filter or a result of >= 2 edges / >= 3 nodes", what),
                 bounds: json!({"(nodes, max_edges, node_value_range, shards)": bounds}),
                 exhaustive: true,
                 assumptions: common_assumptions,
@@ -337,7 +384,7 @@ pub fn plan(prop: &str, tier: &str) -> Option<Plan> {
                     .collect();
                 // (n, init_edges, shape, bound, max_exec, shards)
                 let table: Vec<(usize, usize, &str, Option<usize>, u64, usize)> = if tier == "quick" {
-                    vec![(2, 1, "2x1", None, 200_000, 8), (3, 1, "iso12", Some(2), 20_000, 16)]
+                    vec![(2, 2, "2x1", None, 200_000, 16), (3, 1, "iso12", Some(2), 20_000, 16)]
                 } else {
                     vec![
                         (2, 2, "2x1", None, 500_000, 8),
@@ -357,7 +404,7 @@ pub fn plan(prop: &str, tier: &str) -> Option<Plan> {
                 jobs,
                 level: "model_checking".into(),
                 rule: "stateless DFS over all interleavings of lock acquisitions of the real code under a deterministic scheduler (one scheduling point before every RwLock read()/write() of the sync node modules); 2-thread x 1-call scenarios over all operand pairs and initial edge lists are explored completely (no preemption bound), larger ones up to the stated preemption bound; every execution is judged: no deadlock (also under std's writer-preferring RwLock policy), no panic, no poisoned lock, invariants at quiescence, and (final state, returns of the mutating calls) equal to some sequential order of the same calls run on the real code. states/transitions = lock points scheduled; evaluations = complete schedules; nontrivial = scenarios with >= 2 distinct outcomes over their schedules".into(),
-                bounds: json!({"quick": "2 nodes, <=1 initial edge, 2 threads x 1 call, all interleavings, both address orders; 3 nodes: isolate vs two consecutive mutations touching the isolated node, preemption bound 2, all 6 address orders", "thorough": "also <=2 initial edges, 3 nodes 2x1, 2x2 and 3x1 mutator scenarios with preemption bound 2, mutator vs 2 queries with bound 3, isolate vs two mutations with bound 3, every 1 mutator vs 2 mutators scenario on 3 nodes up to node renaming with bound 2"}),
+                bounds: json!({"quick": "2 nodes, <=2 initial edges (parallel edges with distinct values included), 2 threads x 1 call, all interleavings, both address orders; 3 nodes: isolate vs two consecutive mutations touching the isolated node, preemption bound 2, all 6 address orders", "thorough": "also <=2 initial edges, 3 nodes 2x1, 2x2 and 3x1 mutator scenarios with preemption bound 2, mutator vs 2 queries with bound 3, isolate vs two mutations with bound 3, every 1 mutator vs 2 mutators scenario on 3 nodes up to node renaming with bound 2"}),
                 exhaustive: true,
                 assumptions: vec![
                     "scheduling at lock acquisitions is sufficient: between two acquisitions a thread touches only its own stack, immutable keys/values and Arc counters (data-race freedom outside the locks is Rust's type system plus C16)".into(),
@@ -372,6 +419,7 @@ pub fn plan(prop: &str, tier: &str) -> Option<Plan> {
 }
 
 pub fn work(job: &Job, out: &mut Out) {
+    crate::flavor::set_collide(job.params.get("collide").and_then(|v| v.as_u64()).unwrap_or(0) as u8);
     match job.engine.as_str() {
         "seqx" => crate::with_flavor!(job.flavour.as_str(), F => seqx::explore::<F>(job, out)),
         "gsweep" => crate::with_flavor!(job.flavour.as_str(), F => gsweep::sweep::<F>(job, out)),
@@ -396,6 +444,7 @@ pub fn work(job: &Job, out: &mut Out) {
 }
 
 pub fn replay(property: &str, engine: &str, flavour: &str, case: &Value) -> Vec<Violation> {
+    crate::flavor::set_collide(case.get("collide").and_then(|v| v.as_u64()).unwrap_or(0) as u8);
     match engine {
         "seqx" => crate::with_flavor!(flavour, F => seqx::replay::<F>(property, case)),
         "gsweep" => crate::with_flavor!(flavour, F => gsweep::replay::<F>(property, case)),
